@@ -397,3 +397,96 @@ def c08(**p):
             c.note("tucan_v3000", s3)
             c.oblige("same-tucan-string", str_eq(s2, s3))
     return body
+
+
+# ---------------------------------------------------------------------------
+# C06: two renderings of one molecule that differ only in non-identity data
+
+HEADERS = [("", "", ""), ("x" * 80, "  REF  V2000", "M  END"), ("name", "", "M  V30 BEGIN CTAB")]
+TRAILING = [["BEGIN COLLECTION", "MDLV30/STEABS ATOMS=(1 1)", "END COLLECTION"],
+            ["BEGIN SGROUP", "1 SUP 1 ATOMS=(1 1) LABEL=X", "END SGROUP"],
+            ["BEGIN OBJ3D", "END OBJ3D"]]
+
+
+def c06(**p):
+    from harness.pipeline import dom
+
+    def body(c):
+        shadows(c)
+        mol = dom(c, p)
+        n = mol.n
+        blist = sorted(mol.bonds)
+
+        def props(a):
+            out = []
+            if mol.rad[a] is not None:
+                out.append(("RAD", mol.rad[a]))
+            if mol.mass[a] is not None:
+                out.append(("MASS", mol.mass[a]))
+            return out
+        # rendering 1: plain
+        a1 = [A3(a + 1, mol.elements[a], (0.0, 0.0, 0.0), props(a)) for a in range(n)]
+        b1 = [B3(k + 1, 1, a + 1, b + 1) for k, (a, b) in enumerate(blist)]
+        t1 = v3000_text(a1, b1)
+        # rendering 2: same molecule, other non-identity data
+        idx = [c.int(f"i{a}", lo=1) for a in range(n)]
+        c.assume(distinct(idx))
+        variant = c.choice("variant", 7)
+        xk_atom = V3000_ATOM_KEYWORDS[c.choice("xk", len(V3000_ATOM_KEYWORDS))] if variant == 1 else None
+        xk_bond = V3000_BOND_KEYWORDS[c.choice("bxk", len(V3000_BOND_KEYWORDS))] if variant == 2 else None
+        a2 = []
+        for a in range(n):
+            chg = c.int(f"chg{a}", -15, 15)
+            if a > 0:
+                c.assume(not_(eq(chg, 0)))       # only atom 0 may state an explicit CHG=0 (keeps the reader's zero test from forking 2^n ways)
+            xyz = (COORDS[c.choice("coord", len(COORDS))], -1.0 * a, 1e22) if (variant == 5 and a == 0) else (1.5 * a, 0.25, -2.0)
+            pr = [("CHG", chg)] + props(a)
+            if variant == 6:
+                pr = list(reversed(pr))
+            a2.append(A3(idx[a], mol.elements[a], xyz, pr, aamap=c.int(f"aam{a}", 0) if a == 0 else 0,
+                         extra=xk_atom if a == 0 else None, extra_pos=0))
+        b2 = [B3(k + 1, c.int(f"bt{a}_{b}"), idx[a], idx[b], extra=xk_bond if k == 0 else None) for k, (a, b) in enumerate(blist)]
+        header = HEADERS[c.choice("header", len(HEADERS))] if variant == 0 else ("", "  REF", "")
+        trailing = TRAILING[c.choice("trailing", len(TRAILING))] if variant == 3 else ()
+        t2 = v3000_text(a2, b2, header=header, trailing=trailing, eol="\r\n" if variant == 4 else "\n")
+        c.note("mol", mol.describe())
+        c.note("rendering1", t1)
+        c.note("rendering2", t2)
+        read = T()["read"]
+        s1, s2 = tucan_of(read(t1)), tucan_of(read(t2))
+        c.note("tucan1", s1)
+        c.note("tucan2", s2)
+        c.oblige("strings-equal", str_eq(s1, s2))
+    return body
+
+
+def c06_v2000(**p):
+    """V2000 pair: coordinates, bond types and stereo fields, charges (M  CHG), header lines."""
+    from harness.pipeline import dom
+
+    def body(c):
+        shadows(c)
+        mol = dom(c, p)
+        n = mol.n
+        blist = sorted(mol.bonds)
+        iso = [(a + 1, mol.mass[a]) for a in range(n) if mol.mass[a] is not None]
+        rad = [(a + 1, mol.rad[a]) for a in range(n) if mol.rad[a] is not None]
+
+        def render(alt):
+            al = [v2000_atom_line(mol.elements[a], (1.5 * a if alt else 0.0, -0.25 if alt else 0.0, 0.0)) for a in range(n)]
+            bl = [v2000_bond_line(a + 1, b + 1, c.int(f"bt{a}_{b}") if alt else 1, stereo=(1 if alt and k == 0 else 0)) for k, (a, b) in enumerate(blist)]
+            pl = []
+            chg = [(a + 1, c.int(f"chg{a}", -15, 15)) for a in range(n)] if alt else []
+            pl += fixed_lines("CHG", chg) if chg else []
+            pl += fixed_lines("RAD", rad) + fixed_lines("ISO", iso)
+            return v2000_text(al, bl, pl, header=("name", "  PROG", "comment") if alt else ("", "", ""), eol="\r\n" if alt and p.get("crlf") else "\n")
+        t1, t2 = render(False), render(True)
+        c.note("mol", mol.describe())
+        c.note("rendering1", t1)
+        c.note("rendering2", t2)
+        read = T()["read"]
+        s1, s2 = tucan_of(read(t1)), tucan_of(read(t2))
+        c.note("tucan1", s1)
+        c.note("tucan2", s2)
+        c.oblige("strings-equal", str_eq(s1, s2))
+    return body
